@@ -179,12 +179,12 @@ def run(ctx: lib.Ctx) -> None:
         ctx.corpus_cases += 1
         inputs.append(('corpus', doc['name'], doc['code']))
     ok_code = [{'prim': 'DROP'}, {'prim': 'LAMBDA', 'args': [UNIT, UNIT, [{'prim': 'TRANSFER_TOKENS'}]]}]
-    for name in gen_names(rng, ctx.n(3, 20)):
+    for name in gen_names(rng, ctx.n(3, 12)):
         code = ok_code if rng.random() < 0.8 else gen_code(rng, 6, p_bad=0.1)
         inputs.append(('name', name, code))
     for code in enumerate_small(ctx.n(2, 3)):
         inputs.append(('chain', rng.choice(['v', 'get_x', 'a.b%c@d', '']), code))
-    for _ in range(ctx.n(500, 8000)):
+    for _ in range(ctx.n(500, 5000)):
         inputs.append(('random', 'v', gen_code(rng, rng.choice([3, 6, 10, 16, 25, 40]), p_bad=rng.choice([0.05, 0.15, 0.3]))))
     for _ in range(ctx.n(20, 200)):   # code that is a single instruction rather than a sequence
         inputs.append(('single', 'v', rng.choice(WRAP1)[1](gen_code(rng, 4)) if rng.random() < 0.7 else rng.choice(LEAVES)()))
